@@ -66,6 +66,8 @@ func (registry *AddressesRegistry) IsRegistered(address string) bool {
 }
 
 func (registry *AddressesRegistry) RemovedAddresses() []string {
+	registry.removedMutex.RLock()
+	defer registry.removedMutex.RUnlock()
 	return copyAddresses(registry.removedAddresses)
 }
 
